@@ -170,8 +170,8 @@ def run(ctx: Ctx):
                     for f_, e_ in recs:
                         toks += [f2b(f_)] + [f2b(v) for v in e_]
                     out = drv.ask(*toks)
-                    ok = len(out) == 4 and int(out[0]) == len(fm) and int(out[1]) == (0 if tr["notconv"] else 1) and b2f(out[2]) == tr["ferr"] and abs(b2f(out[3]) - tr["eerr"]) <= 1e-13 * max(1.0, abs(tr["eerr"]))
-                    ctx.corr_case("Geometry_Optimization_SD.run(recorded)", {"max_evl": c["max_evl"], "tol": c["tol"], "n_evals": len(fm)}, out, [len(fm), int(not tr["notconv"]), tr["ferr"], tr["eerr"]], ok)
+                    ok = len(out) == 4 and int(out[0]) == len(fm) and int(out[1]) == (1 if tr["notconv"] else 0) and b2f(out[2]) == tr["ferr"] and abs(b2f(out[3]) - tr["eerr"]) <= 1e-13 * max(1.0, abs(tr["eerr"]))
+                    ctx.corr_case("Geometry_Optimization_SD.run(recorded)", {"max_evl": c["max_evl"], "tol": c["tol"], "n_evals": len(fm)}, out, [len(fm), int(tr["notconv"]), tr["ferr"], tr["eerr"]], ok)
                 except Exception:
                     import traceback
                     ctx.obligation("correspondence adapter sd_run ran", False, traceback.format_exc()[-1200:], kind="harness")
